@@ -57,7 +57,7 @@ func checkC02(e *Engine, r *Report) {
 	n += r.WhoMayWrite("R3", fPod, "Balloon.PodIDs", set(B+"newBalloon", B+"freeBalloon", B+"assignContainer", B+"dismissContainer"), blFns)
 	n += r.WhoMayWrite("R3", fFree, "balloons.freeCpus", set(B+"setConfig", B+"resizeBalloon", B+"deleteBalloon", B+"fillableBalloonInstances"), blFns)
 	n += r.WhoMayWrite("R3", fBlns, "balloons.balloons", set(B+"setConfig", B+"fillableBalloonInstances", B+"deleteBalloon", B+"applyBalloonDef"), blFns)
-	r.MinInstances("R3 writers (balloons state)", n, 14)
+	r.MinInstances("R3 writers (balloons state)", n, 8)
 
 	// ---- rule 2: partition frame lemmas ----------------------------------------------------------
 	naming := func(ve **vennEval) func(ssa.Value) string {
@@ -142,7 +142,7 @@ func checkC02(e *Engine, r *Report) {
 			}
 		}
 	}
-	r.MinInstances("steps changing free/balloon CPU sets", nFrames, 4)
+	r.MinInstances("steps changing free/balloon CPU sets", nFrames, 2)
 	// setConfig starts from freeCpus = allowed
 	{
 		ok := false
@@ -295,7 +295,7 @@ func checkC02(e *Engine, r *Report) {
 			r.MustPass("R1:share-after-growth@"+FnName(top)+"#"+f.Name(), "idle sharing", what, fn, in, nil, passes, nil)
 		})
 	}
-	r.MinKeys("R1:share-after-growth@", 4)
+	r.MinKeys("R1:share-after-growth@", 2)
 
 	// ---- rule 4: confinement ------------------------------------------------------------------------
 	{
@@ -305,9 +305,28 @@ func checkC02(e *Engine, r *Report) {
 			arg := callArgs(c)[2]
 			okSet, any := true, false
 			var pinnable ssa.Value
+			// the balloon being pinned in this iteration: the base of the Cpus load
+			var blnDef ssa.Instruction
+			AllInstrsOf(updPin, func(in ssa.Instruction) {
+				if u, ok := in.(*ssa.UnOp); ok {
+					if f, b := loadedField(u); f == fCpus {
+						if bi, ok := b.(ssa.Instruction); ok && blnDef == nil {
+							blnDef = bi
+						}
+					}
+				}
+			})
+			crossIter := ""
 			Origins(arg, func(v ssa.Value) bool {
 				switch x := v.(type) {
 				case *ssa.Phi:
+					// a merge point that is not inside the current balloon's iteration carries a value computed for another balloon
+					if blnDef != nil && !blnDef.Block().Dominates(x.Block()) {
+						crossIter = e.InstrPos(x)
+						if crossIter == "" || strings.HasSuffix(crossIter, ":0") {
+							crossIter = "loop header of the balloon loop"
+						}
+					}
 					return false
 				case *ssa.UnOp:
 					if _, isAlloc := x.X.(*ssa.Alloc); isAlloc && x.Op == token.MUL {
@@ -317,7 +336,10 @@ func checkC02(e *Engine, r *Report) {
 					if callObj(x.Common()) != nil && callObj(x.Common()).Name() == "Union" {
 						f1, b1 := loadedField(callArgs(x)[0])
 						f2, b2 := loadedField(variadicSingle(callArgs(x)[1]))
-						if f1 == fCpus && f2 == fShared && sameValue(b1, b2) || f1 == fCpus && f2 == fShared && b1 == b2 {
+						if f1 == fShared && f2 == fCpus {
+							f1, f2 = f2, f1
+						}
+						if f1 == fCpus && f2 == fShared && (b1 == b2 || sameValue(b1, b2)) {
 							any = true
 							pinnable = x
 							return true
@@ -331,7 +353,7 @@ func checkC02(e *Engine, r *Report) {
 							if c2, ok := w.(*ssa.Call); ok && callObj(c2.Common()) != nil && callObj(c2.Common()).Name() == "Union" {
 								f1, _ := loadedField(callArgs(c2)[0])
 								f2, _ := loadedField(variadicSingle(callArgs(c2)[1]))
-								if f1 == fCpus && f2 == fShared {
+								if f1 == fCpus && f2 == fShared || f1 == fShared && f2 == fCpus {
 									innerOK = true
 								}
 							}
@@ -353,6 +375,42 @@ func checkC02(e *Engine, r *Report) {
 			})
 			_ = pinnable
 			r.Check("R11:pinned-set", "confinement", "each member container is told exactly the balloon's Cpus ∪ SharedIdleCpus, or one thread per core of exactly that set", e.InstrPos(c), updPin, okSet && any, "", true)
+			r.Check("R11:pinned-set-same-balloon", "confinement", "the set told is computed for the balloon being pinned in this iteration (no value is carried over from the previous balloon of the loop)", e.InstrPos(c), updPin, crossIter == "" && blnDef != nil,
+				"the set reaches pinCpuMem through a merge outside the current balloon's iteration: "+crossIter, true)
+			// the container pinned is a member of that balloon: looked up by an id ranging over bln.ContainerIDs()
+			member := false
+			cids := e.FuncObj(pkgBL, "Balloon.ContainerIDs")
+			Origins(callArgs(c)[1], func(v ssa.Value) bool {
+				ex, ok := v.(*ssa.Extract)
+				if !ok {
+					return false
+				}
+				call, ok := ex.Tuple.(*ssa.Call)
+				if !ok || callObj(call.Common()) == nil || callObj(call.Common()).Name() != "LookupContainer" {
+					return false
+				}
+				Origins(callArgs(call)[1], func(w ssa.Value) bool {
+					if u, ok := w.(*ssa.UnOp); ok {
+						if ia, ok := u.X.(*ssa.IndexAddr); ok {
+							Origins(ia.X, func(z ssa.Value) bool {
+								if cc, ok := z.(*ssa.Call); ok && callObj(cc.Common()) == cids && blnDef != nil {
+									recv := callArgs(cc)[0]
+									if u, ok := recv.(*ssa.UnOp); ok && u.Op == token.MUL {
+										recv = u.X // value receiver: ContainerIDs(*bln)
+									}
+									if recv == blnDef.(ssa.Value) || sameValue(recv, blnDef.(ssa.Value)) {
+										member = true
+									}
+								}
+								return member
+							})
+						}
+					}
+					return member
+				})
+				return true
+			})
+			r.Check("R11:pinned-container-is-member", "confinement", "the containers told a balloon's set are that balloon's own members (ids from bln.ContainerIDs())", e.InstrPos(c), updPin, member, "", true)
 		}
 		// pinCpuMem passes cpus on unchanged
 		setCpus := e.objs(pkgCA, "Container.SetCpusetCpus")
@@ -398,7 +456,7 @@ func checkC02(e *Engine, r *Report) {
 				r.Check("R1:shared-balloons-repinned@"+FnName(TopParent(fn)), "confinement", "the balloons whose shared idle CPUs changed are handed to updatePinning", e.InstrPos(c), fn, used, "", true)
 			}
 		}
-		r.MinInstances("shareIdleCpus call sites", ns, 5)
+		r.MinInstances("shareIdleCpus call sites", ns, 3)
 		// membership
 		for _, cs := range e.Callers(assign) {
 			r.Check("R3:assign-caller@"+FnName(TopParent(cs.Fn)), "confinement", "membership is created only by AllocateResources", e.InstrPos(cs.Call), cs.Fn, TopParent(cs.Fn) == alloc, "", false)
